@@ -141,6 +141,16 @@ def main():
         "notes": "Deterministic simulation with fault injection (simkit). One integer (VERIF_SEED) decides every scenario, fault, listing/pool order, schedule and the PYTHONHASHSEED bucket of each run. Exit 0 held / 1 VIOLATION with minimised replay / 2 harness error. known_findings.json lists genuine recorded defects; fixes are 'fix:' commits in /repo.",
         "not_applicable": na,
     }
+    allowed = {"exploration", "fault_enumeration", "model_checking", "proof", "translation_validation", "other"}
+    for c in checks:
+        assert c["level_claimed"]["category"] in allowed, (c["property_id"], c["level_claimed"]["category"][:40])
+        assert all(k in c for k in ("property_id", "quick_cmd", "evidence_file", "level_claimed", "level_note"))
+    try:
+        import jsonschema  # present in the tooling venv; the plain checks above are the fallback
+
+        jsonschema.validate(man, json.load(open("/root/.vp/MANIFEST.schema.json")))
+    except ImportError:
+        pass
     with open(os.path.join(VERIF, "MANIFEST.json"), "w") as f:
         json.dump(man, f, indent=1)
     print("checks:", [c["property_id"] for c in checks], "na:", [n["property_id"] for n in na])
